@@ -22,7 +22,7 @@ LEVEL_NOTE = ("Graphs come from the library's own generator (as the property sta
 PLAN = {"quick": dict(shards=16, budget=100), "thorough": dict(shards=16, budget=500)}
 RULE = ("G = connect_coding_graph(k, mask, t) for sparse / dense / filter masks, t = 1..3; w = random walk of length n from a "
         "retained start; E = one edit at every position p in [k, n-2k) x {S x3, I x4, D}, and 2-3 edits pairwise >= 3k+2 apart; "
-        "repair_dna(apply(E, w), G, v, k, has_indel=True, heap_size=1e6 [, vt_check = VT(w)]). Verdict: detected == |E| => w in "
+        "repair_dna(apply(E, w), G, v, k, has_indel=True, heap_size in {1e6, 10^9, inf} [, vt_check = VT(w)]). Verdict: detected == |E| => w in "
         "candidates; |E| = 1: detected == 1 iff the corrupted strand is not a walk (else 0); substitutions only: the same with "
         "has_indel=False. Non-trivial: the corrupted strand is not a walk of G (an error is there to be found); distinct = hash of "
         "(graph, start, walk, edits, options)."
@@ -201,7 +201,10 @@ def _judge(ctx, dsw, case, acc, k, w, edits, check_len, has_indel, sub_name):
     corrupted = gens.apply_edits(w, [tuple(e) for e in edits])
     check = oracles.vt(w, check_len) if check_len else None
     sub = dict(k=k, arcs=case["arcs"], start=start, walk=w, edits=edits, check=check_len, indel=has_indel)
-    kind, res, _r, steps = call_repair(dsw, corrupted, acc, start, k, check=check, has_indel=has_indel, heap=HEAP)
+    # "unrestrictive": a large float, a large int, or no limit at all
+    heap = [HEAP, HEAP, 10 ** 9, "inf"][(len(corrupted) + len(edits) + (edits[0][1] if edits else 0)) % 4]
+    kind, res, _r, steps = call_repair(dsw, corrupted, acc, start, k, check=check, has_indel=has_indel, heap=heap)
+    ctx.cls("heap limit|%s" % heap)
     where = "k=%d start=%s walk=%s edits=%s corrupted=%s check=%s has_indel=%s graph=%s" % (
         k, G.kmer(start, k), w, edits, corrupted, check, has_indel, case["arcs"])
     cw = G.walk(case.get("shadow", acc), start, corrupted)
@@ -220,7 +223,7 @@ def _judge(ctx, dsw, case, acc, k, w, edits, check_len, has_indel, sub_name):
         ctx.cls("k=%d|detected == |E| = %d" % (k, m))
         if m >= 2:
             ctx.cls("multi-edit|detected == |E|")
-        if len(stats) >= 3 and stats[2] and float(stats[2]) > HEAP:
+        if len(stats) >= 3 and stats[2] and float(stats[2]) > HEAP and heap == HEAP:
             ctx.fail("heap-limit-was-restrictive", "candidate product %s exceeds the 'unrestrictive' heap limit; %s" % (stats[2], where), sub_name, sub)
     if m == 1:
         if detected != (0 if cw["ok"] else 1):
@@ -281,7 +284,7 @@ def floors(agg, tier):
                 out.append("k=%d: detection delay %d observed %d < 5" % (k, d, c.get("k=%d|detection delay %d" % (k, d), 0)))
     if c.get("multi-edit|detected == |E|", 0) < 3000:
         out.append("multi-edit sets with detected == |E| observed %d < 3000" % c.get("multi-edit|detected == |E|", 0))
-    for name, need in (("has_indel=False", 200), ("check|supplied", 200), ("edit|I detected", 200), ("edit|D detected", 100)):
+    for name, need in (("has_indel=False", 200), ("heap limit|inf", 2000), ("heap limit|1000000000", 2000), ("check|supplied", 200), ("edit|I detected", 200), ("edit|D detected", 100)):
         if c.get(name, 0) < need:
             out.append("%s observed %d < %d" % (name, c.get(name, 0), need))
     return out
